@@ -21,7 +21,7 @@ func rulesC02(c *Ctx, r *Report) {
 	rulesScanBuf(c, r, "formats/fastq")
 	rulesFastqLayout(c, r)
 	rulesScanAliasPkg(c, r, "formats/fastq")
-	rulesPassAllFor(c, r, "formats/fastq", []string{"(*reader).iter$1", "Reader$1"}, 2)
+	rulesPassAllFor(c, r, "formats/fastq", 3)
 }
 
 // rulesScanBuf (SC-BUF): NewScanner -> Buffer(max >= 2^30) before the scanner leaves the constructor / is scanned.
@@ -131,7 +131,7 @@ func rulesFastqLayout(c *Ctx, r *Report) {
 		}
 	}
 	// reader
-	rd := c.fn("formats/fastq", "(*reader).read")
+	rd := c.role("fastq.read")
 	where = "formats/fastq.(*reader).read"
 	if rd == nil {
 		r.undecided("F4L", where, "anchor", "", "read not found")
